@@ -426,7 +426,94 @@ def register_json(T, repo):
                    Implies(And(Not(bo), end >= 0),
                            line_start(tex, end, end - tx + 1)),
                    fx >= 0)
+
+    def xml_bytes(E0, E1):
+        # byte mode (xml-b): the columns are the UTF-8 lengths of the text
+        # from the start of the line of the first / last flagged character
+        # up to (exclusive / inclusive) that character
+        from pyvc.builtins import enc_prefix
+        tex = lift_str(E1['tex'])
+        beg, end = zint(E1['beg']), zint(E1['end'])
+        fx, tx = zint(E1['fromx']), zint(E1['tox'])
+        bo = zbool(E1['byte_offset'])
+
+        def bytes_from(q, hi):
+            return enc_prefix(tex.arr, zint(hi)) - enc_prefix(tex.arr,
+                                                              zint(q))
+        q1 = z3.Int('q1_%d' % sym.uid())
+        q2 = z3.Int('q2_%d' % sym.uid())
+        # stated for EVERY line start q (there is exactly one): as a goal
+        # this is a Skolem constant, no existential search
+        return Implies(bo, And(
+            z3.ForAll([q1], Implies(line_start(tex, beg, q1),
+                                    fx == bytes_from(q1, beg))),
+            Implies(end >= 0, z3.ForAll([q2], Implies(
+                line_start(tex, end, q2),
+                tx == bytes_from(q2, end + 1))))))
     c.loop(0).body_post.append(('line-column', xml_body))
+    c.loop(0).body_post.append(('byte-columns', xml_bytes))
+
+    # bounded native search (only when the solver answers `unknown`;
+    # refutation only): the real output_xml_report on short multi-line
+    # texts with multi-byte characters, judged by the property's sentence
+    def xml_native_callable(ex):
+        from pyvc import replay as _r
+        gx = _r.real_module('yalafi.shell.genxml')
+        ut = _r.real_module('yalafi.shell.utils')
+
+        def jget(dic, item, typ):
+            v = dic[item]
+            if not isinstance(v, typ):
+                raise SystemExit('json')
+            return v
+        import types
+        gx.json_get = jget
+        ut.json_get = jget
+        ut.cmdline = types.SimpleNamespace(context=20)
+        gx.cmdline = ut.cmdline
+        return gx.output_xml_report
+    c.native_callable = xml_native_callable
+    c.native_only = True
+
+    def xml_sampler(rng):
+        import io
+        n = rng.randint(1, 14)
+        tex = ''.join(rng.choice('ab \n\n\u00e4\u20ac%') for _ in range(n))
+        if not tex.strip('\n'):
+            tex = 'a' + tex
+        o = rng.randrange(len(tex))
+        ln = rng.randint(1, len(tex) - o)
+        m = {'offset': o, 'length': ln, 'message': 'm',
+             'rule': {'id': 'R', 'category': {'name': 'c'}},
+             'replacements': [{'value': 'v'}],
+             'context': {'text': tex, 'offset': o, 'length': ln}}
+        return {'tex': tex, 'plain': tex,
+                'charmap': list(range(1, len(tex) + 1)), 'matches': [m],
+                'byte_offset': rng.random() < 0.7, 'file': 'f.tex',
+                'out': io.StringIO()}
+    c.sampler = xml_sampler
+
+    def xml_native_post(a, result):
+        import re as _re
+        tex, m = a['tex'], a['matches'][0]
+        out = a['$after']['out'].getvalue()
+        got = {k: int(v) for k, v in _re.findall(
+            r'(fromy|fromx|toy|tox)="(\d+)"', out)}
+        beg = m['offset']
+        end = beg + m['length'] - 1
+
+        def col(p, incl):
+            ls = tex.rfind('\n', 0, p) + 1
+            t = tex[ls:p + (1 if incl else 0)]
+            return len(t.encode()) if a['byte_offset'] else len(t)
+        want = {'fromy': tex.count('\n', 0, beg), 'fromx': col(beg, False),
+                'toy': tex.count('\n', 0, end), 'tox': col(end, True)}
+        if got != want:
+            return 'tex=%r offset=%d length=%d bytes=%r: reported %r, ' \
+                'expected %r' % (tex, beg, m['length'], a['byte_offset'],
+                                 got, want)
+        return None
+    c.native_post = xml_native_post
 
     def et_tostring(ex, st, fi, args, kw, line):
         yield st, fresh_seq('str', 'xml', st.assume)
@@ -663,6 +750,46 @@ def register_json(T, repo):
             pass
         yield st, None
     T.sort_hook = sort_hook
+
+    # ----------------------------- decoding of the raw proofreader answer
+    # (mechanically lifted tails of run_languagetool / run_textgears, see
+    # pyvc/front.py lift_answer_decoding).  Assumed contracts of the library:
+    # bytes.decode may raise UnicodeDecodeError, JSONDecoder.decode may raise
+    # (JSONDecodeError, RecursionError, ...): both are `safe:` obligations
+    # that only a try with a catch-all handler discharges (C15: whatever the
+    # proofreader answers -- truncated, invalid -- no traceback).
+    def bytes_decode(ex, st, fi, o, args, kw, line):
+        ex.prove(st, 'safe:may-raise:UnicodeDecodeError@%d' % line, False,
+                 line)
+        r = fresh_seq('str', 'answer', st.assume)
+        r.tag = 'raw'
+        yield st, r
+
+    def json_decode(ex, st, fi, o, args, kw, line):
+        ex.prove(st, 'safe:may-raise:JSONDecodeError/RecursionError@%d'
+                 % line, False, line)
+        root = JVal('answer')
+        st.assume(root.constraints())
+        yield st, root
+    T.obj_methods[('bytes', 'decode')] = bytes_decode
+    T.obj_methods[('json_decoder', 'decode')] = json_decode
+    T.add(FContract(SH + 'json_fatal', params={'item': AnyS()},
+                    no_return=True))
+
+    def g_hook3(ex, st, module, name, prev=T.globals_hook):
+        if module == PR[:-1] and name == 'json_decoder':
+            return Obj('json_decoder', {})
+        if module.startswith('yalafi.shell.') and name == 'json_fatal':
+            from pyvc.engine import FuncRef
+            return FuncRef(SH + 'json_fatal')
+        return prev(ex, st, module, name)
+    T.globals_hook = g_hook3
+    for mi in _front.repo().modules.values():
+        if mi.name.startswith('yalafi.shell.'):
+            mi.globals.setdefault('json_fatal', None)
+            mi.globals.setdefault('json_decoder', None)
+    for q in _front.lift_answer_decoding(repo):
+        T.add(FContract(q, params={'out': ObjS('bytes', {})}))
 
     # ------------------------------------------- server.Handler.create_message
     SV = 'yalafi.shell.server.Handler.'
